@@ -345,10 +345,10 @@ def run_c14(pid, spec, res, st, tier, seed, helpers):
     pyres = {r['id']: r for r in pr['results']}
     # the Coq model of the rewrite (Model/PyRewrite.v, extracted) on the library's outputs
     outs = [impl[c['id']]['out'] for c in cs if impl.get(c['id']) and impl[c['id']].get('out') is not None]
-    rc2, out2, err2 = sh([runner.DRIVER, '--pyrw'], inp=("\n".join(",".join(map(str, o)) for o in outs) + "\n").encode())
+    rc2, out2, err2 = sh([os.path.join(BUILD, 'extracted', 'pydriver')], inp=("\n".join(",".join(map(str, o)) for o in outs) + "\n").encode())
     model_rw = {}
     if rc2 != 0:
-        res['broken'].append('driver --pyrw failed: ' + err2[-300:])
+        res['broken'].append('the extracted py_rewrite model is not available (gen/SrcPython.v does not build?): ' + err2[-300:])
     else:
         for o, l in zip(outs, out2.splitlines()):
             model_rw[tuple(o)] = [int(x) for x in l.split(',') if x]
@@ -459,3 +459,78 @@ def run_c17(pid, spec, res, st, tier, seed, helpers):
     for c in cs[:3]:
         res['samples'].append({'items': [None if t is None else ''.join(map(chr, t)) for t in c['items']], 'calls': [[a, b >> 8, b & 255] for a, b in c['calls']]})
     return res
+
+
+# ------------------------------------------------------------------------------------------ probes used by C08 / C13
+def cli_anchor_probe(res, seed):
+    """C08 through the front end: every subset of the three anchor flags on the real binary vs the library"""
+    try:
+        build_cli()
+    except runner.BuildError as e:
+        res['broken'].append('%s: %s' % (e.what, e.log[-400:])); return []
+    sets = [["a", "ab", "abc"], ["xyz", "ab"], ["1", "22"], ["b"]]
+    fails = []
+    runs = 0
+    cs = []
+    for i, strs in enumerate(sets):
+        for mask in range(8):
+            fl = []
+            args = []
+            if mask & 1: args.append('--no-start-anchor')
+            if mask & 2: args.append('--no-end-anchor')
+            if mask & 4: args.append('--no-anchors')
+            if mask & 1 or mask & 4: fl.append('ns')
+            if mask & 2 or mask & 4: fl.append('ne')
+            extra_f = ['x'] if (i + mask) % 3 == 0 else []
+            cs.append({'id': len(cs), 'tcs': [[ord(c) for c in s_] for s_ in strs], 'f': ','.join(fl + extra_f), 'mr': 1, 'ms': 1, 'args': args + (['-x'] if extra_f else []), 'strs': strs})
+    impl = runner.run_impl(cs)
+    for c in cs:
+        r = impl.get(c['id'])
+        if not r or r.get('out') is None:
+            continue
+        want = (''.join(map(chr, r['out'])) + '\n').encode()
+        rc, out, err = run_cli(c['args'] + c['strs']); runs += 1
+        if rc != 0 or out != want:
+            fails.append((c, {'kind': 'cli-anchor', 'detail': 'grex %s %s printed %r, the library with the corresponding settings gives %r' % (
+                ' '.join(c['args']), ' '.join(c['strs']), out.decode('utf-8', 'replace')[:120], want.decode()[:120]), 'args': c['args']}))
+    res['stats']['cli_anchor_runs'] = runs
+    return fails
+
+PYPROBE = r'''
+import sys, json
+sys.path.insert(0, %r)
+import grex
+out = []
+for c in json.load(sys.stdin):
+    b = grex.RegExpBuilder([''.join(map(chr, t)) for t in c['tcs']]).with_conversion_of_repetitions()
+    if 'd' in c['f']: b = b.with_conversion_of_digits()
+    b = b.with_minimum_repetitions(c['mr']).with_minimum_substring_length(c['ms'])
+    out.append([ord(x) for x in b.build()])
+json.dump(out, sys.stdout)
+'''
+
+def python_threshold_probe(res, seed):
+    """C13 through the Python binding (its threshold setters write the configuration directly)"""
+    try:
+        build_py()
+    except runner.BuildError as e:
+        res['broken'].append('%s: %s' % (e.what, e.log[-400:])); return []
+    cs = []
+    words = ["aaa", "aaaa", "ababab", "aaabaaabaaab", "2024", "xyxyxyz", "aabbaabb"]
+    for w in words:
+        for mr in (1, 2, 3, 4):
+            for ms in (1, 2, 3):
+                cs.append({'id': len(cs), 'tcs': [[ord(ch) for ch in w]], 'f': 'r,d' if w.isdigit() else 'r', 'mr': mr, 'ms': ms})
+    impl = runner.run_impl(cs)
+    p = subprocess.run([sys.executable, '-c', PYPROBE % PYDIR], input=json.dumps(cs).encode(), capture_output=True, timeout=600)
+    if p.returncode != 0:
+        res['broken'].append('Python probe failed: ' + p.stderr.decode('utf-8', 'replace')[-400:]); return []
+    py = json.loads(p.stdout)
+    fails = []
+    for c, q in zip(cs, py):
+        r = impl.get(c['id'])
+        if r and r.get('out') is not None and q != r['out']:
+            fails.append((c, {'kind': 'py-threshold', 'detail': 'Python binding with min_repetitions=%d min_substring_length=%d returns %r, the library %r' % (
+                c['mr'], c['ms'], ''.join(map(chr, q))[:100], ''.join(map(chr, r['out']))[:100])}))
+    res['stats']['python_threshold_cases'] = len(cs)
+    return fails
